@@ -116,9 +116,11 @@ def run_case(case):
                 return [{"ok": [x for x in moving_average(vs, case.get("span"), w)]}]
             except Exception as e:  # noqa
                 return [{"err": type(e).__name__}]
-        res = build_result(case)
+        res = base = build_result(case)
         recs = []
         for st in case["steps"]:
+            if st.get("fresh"):
+                res = base              # this step starts again from the freshly built Result
             pre = snap(res)
             names = {r[list(pre["lrn"][0]).index("learner_id")]: res._lrn_cache.get(r[list(pre["lrn"][0]).index("learner_id")], {}).get("full_name")
                      for r in pre["lrn"][1]}
@@ -399,8 +401,8 @@ def int_ok(s):
 class C18(Property):
     id = "C18"
     prop_modules = ["CobaVerif.Props.C18"]
-    quick_n = 1500
-    thorough_n = 40000
+    quick_n = 4000
+    thorough_n = 100000
     search_n = 3000
     case_timeout = 60
     workers = 8
@@ -617,6 +619,26 @@ class C18(Property):
             cs.append({"kind": "ma", "vs": [q(v) for v in vs], "span": span, "w": (w if not isinstance(w, list) else [q(x) for x in w])})
         return cs
 
+    def exhaustive(self, tier):
+        """every pattern of present / absent triples and lengths 1/2 over 2 environments x 2 learners x 2 evaluators
+        (3^8 Results), each put through six where_fin / raw_learners calls from the fresh Result"""
+        triples = [(e, l, v) for e in (0, 1) for l in (0, 1) for v in (0, 1)]
+        steps = [{"op": "where_fin", "n": None, "l": "learner_id", "p": "environment_id", "fresh": True},
+                 {"op": "where_fin", "n": "min", "l": "learner_id", "p": ["environment_id", "evaluator_id"], "fresh": True},
+                 {"op": "where_fin", "n": 2, "l": ["learner_id", "evaluator_id"], "p": "data", "fresh": True},
+                 {"op": "where_fin", "n": 2, "l": None, "p": None, "fresh": True},
+                 {"op": "raw_learners", "x": "index", "l": "full_name", "p": "environment_id", "span": 2, "fresh": True},
+                 {"op": "raw_learners", "x": "data", "l": "learner_id", "p": ["environment_id", "evaluator_id"], "span": None, "fresh": True}]
+        for code in range(3 ** 8):
+            evals, c = [], code
+            for t in triples:
+                k = c % 3
+                c //= 3
+                if k:
+                    evals.append([t[0], t[1], t[2], [t[0] + 2 * t[1] + 1, t[2] + 3][:k]])
+            yield {"kind": "res", "env_cols": ["data"], "lrn_cols": [], "val_cols": [], "envs": [[0, "a"], [1, "b"]],
+                   "lrns": [[0], [1]], "vals": [[0], [1]], "evals": evals, "extra": False, "steps": steps}
+
     # ---------------------------------------------------------------- evaluation
     def evaluate(self, case, driver):
         if case["kind"] == "ma":
@@ -641,6 +663,11 @@ class C18(Property):
             elif "post" in rec:
                 check_tables(rec["post"], pre, fails, op, False)
             elif op == "where":
+                if rec["err"] == "IndexError" and not pre["int"][1]:
+                    tags.append("where:empty-indexed-table(C17)")     # Table.where on an empty indexed table: C17's subject
+                    impl_out.append({"err": rec["err"]})
+                    model_out.append(None)
+                    continue
                 fails.append(F("B", "where(%s) raised %s: %s" % (st["kw"], rec["err"], rec.get("errmsg")), "where:raises-" + rec["err"]))
             impl_out.append({"post": snap_json(rec["post"])} if "post" in rec else ({"table": json.loads(json.dumps(rec.get("table"), default=str))} if "table" in rec else {"err": rec["err"]}))
             # (A)
